@@ -397,6 +397,11 @@ func (in *Interp) noteUF(t *Term) *Term {
 // ---------- program execution ----------
 
 func (in *Interp) goPanicf(format string, args ...interface{}) {
+	// a fault INSIDE a package whose initialiser the executor does not run (its package-level variables are
+	// zero: tables, default encodings, ...) says nothing about the code under test: unmodelled, not a panic
+	if fr := in.curFrame; fr != nil && fr.fn != nil && fr.fn.Pkg != nil && in.E.skipInit(fr.fn.Pkg.Pkg.Path()) && in.inInit == 0 {
+		panic(in.abort("unmodelled: %s inside %s, whose package initialiser is not executed", fmt.Sprintf(format, args...), fr.fn))
+	}
 	panic(&goPanic{Msg: fmt.Sprintf(format, args...), Pos: in.where()})
 }
 
